@@ -66,19 +66,21 @@ class CompilerPolicy(symex.Policy):
         self.root = root
         self.root_limit = 3
         self._outer = None
+        self._inner = set()
 
     def limit_for(self, body, blk):
+        DEEP = 0 if self.root == "parse_member" else globals()["DEEP"]     # the postfix loop multiplies argument-list paths: keep it at the quick depth
         # the root's outermost loop(s): root_limit (the loop-carried node is an arbitrary CompiledProg, so one iteration on an
         # opaque child is the inductive step); every other loop (argument lists, builders): 3 = up to two elements
         if body.path == CC + self.root:
             if self._outer is None:
-                self._outer = outer_loop_headers(body)
-            if blk in self._outer:
-                return self.root_limit
-            return 3
+                self._outer, self._inner = outer_loop_headers(body)
+            if blk in self._inner:
+                return 3 + DEEP          # loops nested in the root's own loop (argument lists, segment lists)
+            return self.root_limit
         if body.path.startswith(CC) and "{closure" not in body.path:
-            return 3       # parse_expression_list / parse_obj_inits: up to two elements / entries
-        return 10          # builder helpers iterate over the (already bounded) concrete child vectors
+            return 3 + DEEP       # parse_expression_list / parse_obj_inits: up to two (thorough: three) elements / entries
+        return 12          # builder helpers iterate over the (already bounded) concrete child vectors
 
     def inline(self, path, body):
         if path.startswith(INLINE_PREFIX):
@@ -255,10 +257,13 @@ def outer_loop_headers(body):
                             st.append(p)
                 loops.setdefault(v, set()).update(nodes)
     outer = set()
+    inner_nodes = set()
     for h, nodes in loops.items():
         if not any(h in n2 and h2 != h for h2, n2 in loops.items()):
             outer.add(h)
-    return outer
+        else:
+            inner_nodes |= nodes
+    return outer, inner_nodes
 
 
 class PathResult:
@@ -409,6 +414,9 @@ def show_items(items):
 
 # ------------------------------------------------------------------------------------ template database (cached per tree)
 
+import os as _os
+DEEP = 1 if _os.environ.get("VERIF_DEEP") == "1" else 0     # thorough tier: one more loop iteration everywhere
+
 ROOTS = [("parse_expression", 3), ("parse_expression_inner", 3), ("parse_turnary_expression", 3), ("parse_match_expression", 3),
          ("parse_match_pattern", 3), ("parse_conditional_or", 3), ("parse_conditional_and", 3), ("parse_relation", 3),
          ("parse_addition", 3), ("parse_multiplication", 3), ("parse_unary", 3), ("parse_not_list", 3), ("parse_neg_list", 3),
@@ -529,7 +537,7 @@ def path_json(root, r):
 def _one(args):
     F, m, lim = args
     try:
-        res, it = analyse(F, m, lim)
+        res, it = analyse(F, m, lim + (DEEP if m not in ("parse_member", "parse_relation") else 0), max_paths=40000 * (4 if DEEP else 1))
         return m, [path_json(m, r) for r in res], dict(it.unhandled.most_common(60)), None
     except symex.TooManyPaths as e:
         return m, [], {}, "too many paths: %s" % e
@@ -552,6 +560,7 @@ def build_db(F, force=False):
     h = hashlib.sha256()
     for fn in ("symex.py", "ctemplates.py"):
         h.update(open(os.path.join(here, fn), "rb").read())
+    h.update(b"deep" if DEEP else b"")
     cache = os.path.join(F.dir, "templates.%s.json" % h.hexdigest()[:12])
     if os.path.exists(cache) and not force:
         return json.load(open(cache))
